@@ -425,6 +425,17 @@ def run_case(case, part):
             "extension_name-object+labels": lambda: R["objects"]["x-verif-en1"](id="x-verif-en1--" + U + "01", created=TS, modified=TS, prop="p", labels=["l"], x_extra="e"),
             "extension_name-observable": lambda: R["observables"]["x-verif-en2"](prop="p"),
             "extension_name-observable+declared-x-property": lambda: R["observables"]["x-verif-en2"](prop="p", x_extra="e", defanged=True),
+            # custom properties handed over in BOTH ways at once (inline keyword with allow_custom, and the custom_properties argument)
+            "custom-inline+custom_properties-argument": lambda: stix2.v21.Identity(id="identity--" + U + "21", created=TS, modified=TS, name="n", x_bravo=1, x_delta=[1], allow_custom=True,
+                                                                                   custom_properties={"x_alpha": 2, "x_charlie": {"k": 0.5}}),
+            "custom-inline+custom_properties-argument-20": lambda: stix2.v20.Identity(id="identity--3f7f0c5f-5d54-4292-94ea-ec1e1952be21", created=TS, modified=TS, name="n", identity_class="individual",
+                                                                                      zulu=1, allow_custom=True, custom_properties={"alpha": 2, "mike": 3}),
+            # embedded objects of the OTHER spec version handed over as instances
+            "embedded-objects-of-other-version": lambda: stix2.v21.AttackPattern(id="attack-pattern--" + U + "21", created=TS, modified=TS, name="n", external_references=[
+                stix2.v20.ExternalReference(source_name="s", url="u", hashes={"ssdeep": "3:AXGBicFlgVNhBGcL6wCrFQEv:AXGHsNhxLsr2C", "MD5": "d41d8cd98f00b204e9800998ecf8427e"})],
+                kill_chain_phases=[stix2.v20.KillChainPhase(kill_chain_name="k", phase_name="p")]),
+            "embedded-objects-of-other-version-20": lambda: stix2.v20.AttackPattern(id="attack-pattern--3f7f0c5f-5d54-4292-94ea-ec1e1952be21", created=TS, modified=TS, name="n", external_references=[
+                stix2.v21.ExternalReference(source_name="s", url="u", hashes={"SSDEEP": "3:AXGBicFlgVNhBGcL6wCrFQEv:AXGHsNhxLsr2C"})]),
             "toplevel-extension-as-instance": lambda: stix2.v21.Identity(id="identity--" + U + "21", created=TS, modified=TS, name="n", ext_rank=3,
                                                                          extensions={"extension-definition--" + U + "f1": R["extensions"]["extension-definition--" + U + "f1"]()}),
             "registered-extension-as-instance": lambda: stix2.v21.File(name="f", extensions={"x-verif-ext": R["extensions"]["x-verif-ext"](level=1)}),
@@ -434,7 +445,7 @@ def run_case(case, part):
         except harness.lib_errors() as e:
             part.violation("C01/extra-object-refused/%s" % case["label"], "a programmatically built object of the C01 menu is refused", case, "accepted", "%s: %s" % (type(e).__name__, str(e)[:150]))
             return
-        roundtrip(obj, "2.1", None, "programmatic/" + case["label"], part, case, options)
+        roundtrip(obj, "2.0" if case["label"].endswith("-20") else "2.1", None, "programmatic/" + case["label"], part, case, options)
     elif kind == "transplant":
         try:
             val = transplant_value(case["src"], case["ts"])
@@ -465,7 +476,8 @@ def run(run):
             for ts in TRANSPLANT_TS:
                 cases.append({"kind": "transplant", "src": src, "dst": dst, "ts": ts, "all_options": False})
     for lab in ("extension_name-object", "extension_name-object+declared-x-property", "extension_name-object+custom-property", "extension_name-object+labels", "extension_name-observable",
-                "extension_name-observable+declared-x-property", "toplevel-extension-as-instance", "registered-extension-as-instance"):
+                "extension_name-observable+declared-x-property", "toplevel-extension-as-instance", "registered-extension-as-instance", "custom-inline+custom_properties-argument",
+                "custom-inline+custom_properties-argument-20", "embedded-objects-of-other-version", "embedded-objects-of-other-version-20"):
         cases.append({"kind": "programmatic", "label": lab, "all_options": True})
     run.mode = "DEV"
     run.rule = ("every generated valid instance of both spec versions (deviation bound %d) + custom-content / registered-custom / bundle / container objects + %d timestamp "
